@@ -82,6 +82,39 @@ structure Problem where
   x : Ix → Signal Q
   assigned : List (String × Ix × Signal Q)
   reported : List (String × String × Signal Q) := []      -- (U | I, component name, signal)
+  /-- time-domain reading of the netlist (`capControl`): what `td.laws`, `td.reported`, `td.state` are decided on -/
+  tcsT : List (String × TCpt Q) := []
+  xT : Ix → Signal Q := fun _ => ⟨[], []⟩
+  extraNodes : Nat := 0
+  lines : List String := []
+
+/-- TIME-DOMAIN READING OF A CCVS CONTROLLED BY A CAPACITOR.  The front-end describes `H1 a b C1 h` by `Cpt.HY` with the
+    admittance of the controlling element AT THE POINT s (for a capacitor y = s·C, isc = C·v0): an s-domain description.
+    In the time domain the control current is `C·D v`; it is expressed with the existing components by the electrically
+    identical circuit "capacitor in series with an ideal ammeter that carries the control branch":
+        C1 n3 n4 c v0 ; H1 n1 n2 C1 h     ↦     C1 n3 k c v0 ; AM k n4 (branch of C1) ; H n1 n2 (controlled by that branch)
+    with a fresh node `k` whose voltage signal is that of `n4` (so the ammeter law holds by construction and KCL at `k`
+    says: control current = i_C = C·D v seen from v0).  `HY` controlled by R or Y (constant conductance) is left as is. -/
+def capControl (brs : List String) (nNodes : Nat) (tcs : List (String × TCpt Q)) (x : Ix → Signal Q) :
+    List (String × TCpt Q) × (Ix → Signal Q) × Nat :=
+  tcs.foldl (fun (acc : List (String × TCpt Q) × (Ix → Signal Q) × Nat) (nc : String × TCpt Q) =>
+    let (cur, xx, extra) := acc
+    match nc.2.1 with
+    | .HY n1 n2 m _ _ mc _ _ h =>
+      let cn := brs.getD mc ""
+      if cn.startsWith "C" then
+        match cur.find? (fun q => q.1 = cn) with
+        | some (_, (.Cap a b c v0, w)) =>
+          let k := nNodes + extra
+          let vb : Signal Q := voltT xx b
+          let cur' := cur.map (fun q =>
+            if q.1 = cn then (cn, ((Cpt.Cap a k c v0 : Cpt Q), w))
+            else if q.1 = nc.1 then (nc.1, ((Cpt.H n1 n2 m mc h : Cpt Q), nc.2.2)) else q)
+          (cur' ++ [(cn ++ "_ammeter", ((Cpt.AM k b mc : Cpt Q), (⟨[], []⟩ : Signal Q)))],
+           (fun ix => if ix = Ix.node k then vb else xx ix), extra + 1)
+        | _ => acc
+      else acc
+    | _ => acc) (tcs, x, 0)
 
 def parseReported (toks : List String) : Except String (List (String × String × Signal Q)) :=
   (splitBar toks).filter (· ≠ []) |>.filterMapM (fun a =>
@@ -124,7 +157,8 @@ def mkProblem (sections : List (List String)) : Except String Problem := do
     | some a => a.2.2
     | none => ⟨[], []⟩
   let reported ← parseReported sigToks
-  pure ⟨e, tcs, x, assigned, reported⟩
+  let (tcsT, xT, extra) := capControl e.brs e.cls.length tcs x
+  pure { e := e, tcs := tcs, x := x, assigned := assigned, reported := reported, tcsT := tcsT, xT := xT, extraNodes := extra, lines := lines }
 
 def termStr : Term Q → String
   | .ep c k p d => s!"ep {c} {k} {p} {d}"
@@ -140,7 +174,9 @@ def smoothProblem (p : Problem) : Problem :=
     | _ => c
   { p with
     tcs := p.tcs.map (fun (n, c) => (n, clr c)),
-    x := fun ix => let sg := p.x ix; ⟨[(val0plus sg.post, 0, 0)], sg.post⟩ }
+    x := fun ix => let sg := p.x ix; ⟨[(val0plus sg.post, 0, 0)], sg.post⟩,
+    tcsT := p.tcsT.map (fun (n, c) => (n, clr c)),
+    xT := fun ix => let sg := p.xT ix; ⟨[(val0plus sg.post, 0, 0)], sg.post⟩ }
 
 /-- the first two nodes of a component -/
 def cptNodes : Cpt Q → Nat × Nat
@@ -183,23 +219,23 @@ def handle (toks : List String) : Option String :=
           let tcs := p.tcs.map (·.2)
           if cmd = "td.laws" then
             let p := if head = ["smooth"] then smoothProblem p else p
-            let tcs := p.tcs.map (·.2)
+            let tcs := p.tcsT.map (·.2)
             if !(coupConsistent tcs) then "error inconsistent-coupling" else
-            match checkLawsT tcs p.x p.e.cls.length with
+            match checkLawsT tcs p.xT (p.e.cls.length + p.extraNodes) with
             | .ok => "ok"
             | .kcl k r => s!"kcl {className p.e k} {polyStr r}"
-            | .law i m r => s!"law {(p.tcs.getD i ("?", (.Open 0 0, ⟨[], []⟩))).1} {p.e.brs.getD m "?"} {polyStr r}"
+            | .law i m r => s!"law {(p.tcsT.getD i ("?", (.Open 0 0, ⟨[], []⟩))).1} {p.e.brs.getD m "?"} {polyStr r}"
           else if cmd = "td.reported" then
             let bad := p.reported.findSome? (fun (kind, n, sg) =>
-              match p.tcs.find? (fun c => c.1 = n) with
+              match p.tcsT.find? (fun c => c.1 = n) with
               | none => some s!"error unknown-component:{n}"
               | some (_, c) =>
                 if kind = "U" then
                   let (a, b) := cptNodes c.1
-                  let r := nf (subP (vpost p.x a b) sg.post)
+                  let r := nf (subP (vpost p.xT a b) sg.post)
                   if r.isEmpty then none else some s!"bad U {n} {polyStr r}"
                 else
-                  match throughT p.x c with
+                  match throughT p.xT c with
                   | none => none
                   | some i =>
                     let r := nf (subP i sg.post)
@@ -208,17 +244,17 @@ def handle (toks : List String) : Option String :=
             | some b => b
             | none => s!"ok {p.reported.length}"
           else if cmd = "td.state" then
-            let out := p.tcs.filterMap (fun (n, c) => match c.1 with
+            let out := p.tcsT.filterMap (fun (n, c) => match c.1 with
               | .Cap n1 n2 cc v0 =>
-                  let st := stateOf v0 (vpre0 p.x n1 n2)
-                  some s!"{n}={st};{val0plus (nf (vpost p.x n1 n2))};{impulse0 (capCurrentT p.x n1 n2 cc v0)}"
+                  let st := stateOf v0 (vpre0 p.xT n1 n2)
+                  some s!"{n}={st};{val0plus (nf (vpost p.xT n1 n2))};{impulse0 (capCurrentT p.xT n1 n2 cc v0)}"
               | .Ind n1 n2 m l i0 coup =>
                   -- flux linkage  L·i + Σ M·i'  (for an uncoupled inductor: L·i)
-                  let st := l * stateOf i0 (pre0 (p.x (.br m)).pre) +
-                    lsum (coup.map (fun q => q.2.1 * stateOf q.2.2 (pre0 (p.x (.br q.1)).pre)))
-                  let now := l * val0plus (nf (p.x (.br m)).post) +
-                    lsum (coup.map (fun q => q.2.1 * val0plus (nf (p.x (.br q.1)).post)))
-                  some s!"{n}={st};{now};{impulse0 (vpost p.x n1 n2)}"
+                  let st := l * stateOf i0 (pre0 (p.xT (.br m)).pre) +
+                    lsum (coup.map (fun q => q.2.1 * stateOf q.2.2 (pre0 (p.xT (.br q.1)).pre)))
+                  let now := l * val0plus (nf (p.xT (.br m)).post) +
+                    lsum (coup.map (fun q => q.2.1 * val0plus (nf (p.xT (.br q.1)).post)))
+                  some s!"{n}={st};{now};{impulse0 (vpost p.xT n1 n2)}"
               | _ => none)
             "ok " ++ " ".intercalate out
           else if cmd = "td.causal" then
@@ -248,13 +284,17 @@ def handle (toks : List String) : Option String :=
               let E := C09.mkE ep
               let s : Q := Lcapy.Laplace.GQ.ofRat ep.s
               let scs := tcs.map (atS E s)
+              -- s-dependent admittances of the front-end (a CCVS controlled by a capacitor) are taken at the point s
+              let cptsAtS := match elaborate (.ivp (ofQ s)) p.lines with
+                | .ok e2 => e2.cpts
+                | .error _ => p.e.cpts
               let e' : Elab := { p.e with cpts := (p.tcs.zip scs).map (fun (nc, c) => (nc.1, match c with
                 | .V a b m v => Cpt.V a b m (ofQ v)
                 | .I a b i => Cpt.I a b (ofQ i)
                 | .Cap a b cc v0 => Cpt.Cap a b (ofQ cc) (some (ofQ (stateOf v0 (vpre0 p.x a b))))
                 | .Ind a b m l i0 coup => Cpt.Ind a b m (ofQ l) (some (ofQ (stateOf i0 (pre0 (p.x (.br m)).pre))))
                     (coup.map (fun q => (q.1, ofQ q.2.1, some (ofQ (stateOf q.2.2 (pre0 (p.x (.br q.1)).pre))))))
-                | _ => (p.e.cpts.find? (fun q => q.1 = nc.1)).map (·.2) |>.getD (.Open 0 0))) }
+                | _ => (cptsAtS.find? (fun q => q.1 = nc.1)).map (·.2) |>.getD (.Open 0 0))) }
               let an : Analysis := .ivp (ofQ s)
               let X := transformOf E p.x s
               if scs.any (fun c => match c with
